@@ -231,10 +231,12 @@ impl Property for C10 {
         if let Some(d) = compare_instantiated(&opt_fn(&pi.objective), &opt_fn(&out.objective), &assign) {
             mon.violation("C10.objective", format!("{d}\nresult objective={:?}\n{}", out.objective, ctx()));
         }
-        if out.constraints.len() != pi.constraints.len() {
-            mon.violation("C10.constraints-count", format!("{} constraints became {}\n{}", pi.constraints.len(), out.constraints.len(), ctx()));
-        } else {
-            for (a, b) in pi.constraints.iter().zip(out.constraints.iter()) {
+        let Some(pairs) = pair_by_id(&pi.constraints, &out.constraints) else {
+            mon.violation("C10.constraints-count", format!("constraint ids {:?} became {:?}\n{}", pi.constraints.iter().map(|c| c.id).collect::<Vec<_>>(), out.constraints.iter().map(|c| c.id).collect::<Vec<_>>(), ctx()));
+            return;
+        };
+        {
+            for (a, b) in pairs {
                 if constraint_core(a) != constraint_core(b) {
                     mon.violation("C10.constraint-identity", format!("constraint {} id/equality/metadata changed: {:?} -> {:?}\n{}", a.id, constraint_core(a), constraint_core(b), ctx()));
                 }
@@ -253,13 +255,13 @@ impl Property for C10 {
             }
         }
         // carried over
-        if out.decision_variables != pi.decision_variables {
+        if !same_variables(&out.decision_variables, &pi.decision_variables) {
             mon.violation("C10.variables-changed", ctx());
         }
         if out.sense != pi.sense {
             mon.violation("C10.sense-changed", ctx());
         }
-        if out.removed_constraints != pi.removed_constraints {
+        if !same_removed(&out.removed_constraints, &pi.removed_constraints) {
             mon.violation("C10.removed-constraints-changed", format!("result={:?}\n{}", out.removed_constraints, ctx()));
         }
         if out.constraint_hints != pi.constraint_hints {
@@ -292,13 +294,16 @@ first result={out:?}
 {}", ctx())),
                 Ok(Ok(again)) => {
                     let none = BTreeMap::new();
-                    let mut same = compare_instantiated(&opt_fn(&out.objective), &opt_fn(&again.objective), &none).is_none() && again.constraints.len() == out.constraints.len();
-                    if same {
-                        for (a, b) in out.constraints.iter().zip(again.constraints.iter()) {
-                            same &= constraint_core(a) == constraint_core(b) && compare_instantiated(&opt_fn(&a.function), &opt_fn(&b.function), &none).is_none();
+                    let mut same = compare_instantiated(&opt_fn(&out.objective), &opt_fn(&again.objective), &none).is_none();
+                    match pair_by_id(&out.constraints, &again.constraints) {
+                        None => same = false,
+                        Some(pairs) => {
+                            for (a, b) in pairs {
+                                same &= constraint_core(a) == constraint_core(b) && compare_instantiated(&opt_fn(&a.function), &opt_fn(&b.function), &none).is_none();
+                            }
                         }
                     }
-                    if !same || again.decision_variables != out.decision_variables || again.sense != out.sense || again.removed_constraints != out.removed_constraints {
+                    if !same || !same_variables(&again.decision_variables, &out.decision_variables) || again.sense != out.sense || !same_removed(&again.removed_constraints, &out.removed_constraints) {
                         mon.violation("C10.conversion:already-instantiated-changed", format!("second result={again:?}
 first result={out:?}
 {}", ctx()));
@@ -361,18 +366,20 @@ impl C10 {
                 if let Some(d) = compare_instantiated(&opt_fn(&inst.objective), &opt_fn(&out.objective), &none) {
                     mon.violation("C10.conversion:objective", format!("objective changed: {d}\nresult={:?}\n{}", out.objective, ctx()));
                 }
-                if out.constraints.len() != inst.constraints.len() {
-                    mon.violation("C10.conversion:constraints", format!("constraint count changed\n{}", ctx()));
-                } else {
-                    for (a, b) in inst.constraints.iter().zip(out.constraints.iter()) {
+                let pairs = pair_by_id(&inst.constraints, &out.constraints);
+                if pairs.is_none() {
+                    mon.violation("C10.conversion:constraints", format!("constraint ids changed\n{}", ctx()));
+                }
+                {
+                    for (a, b) in pairs.unwrap_or_default() {
                         if constraint_core(a) != constraint_core(b) || compare_instantiated(&opt_fn(&a.function), &opt_fn(&b.function), &none).is_some() {
                             mon.violation("C10.conversion:constraints", format!("constraint {} changed: {b:?}\n{}", a.id, ctx()));
                         }
                     }
                 }
-                if out.decision_variables != inst.decision_variables
+                if !same_variables(&out.decision_variables, &inst.decision_variables)
                     || out.sense != inst.sense
-                    || out.removed_constraints != inst.removed_constraints
+                    || !same_removed(&out.removed_constraints, &inst.removed_constraints)
                     || out.constraint_hints != inst.constraint_hints
                     || out.decision_variable_dependency != inst.decision_variable_dependency
                     || out.description != inst.description
